@@ -59,23 +59,31 @@ Definition c06_segments_apply (exts0 : list bool) (steps : list wstep) : bool :=
    counted after the boundary call), so that a boundary call that wrote to the destination
    spoils the segment it closes; the last segment owns the whole rest of the log.
    ResetOp must leave nothing buffered. *)
-Fixpoint seg_walk (client : bool) (op : N) (exts : list bool) (size base : N)
+Section Judge.
+(* what every segment has to satisfy: side, opcode, compressed flag, buffer size at its start,
+   its steps (calls counted from its start), its part of the destination log *)
+Variable judge : bool -> N -> bool -> N -> list wstep -> list (list byte) -> bool.
+Fixpoint seg_walk_with (client : bool) (op : N) (exts : list bool) (size base : N)
          (cur : list wstep) (steps : list wstep) (log : list (list byte)) : bool :=
   match steps with
-  | [] => c06_monitor client op (exts_compressed exts) size (rev cur) (drop base log)
+  | [] => judge client op (exts_compressed exts) size (rev cur) (drop base log)
   | st :: r =>
     let o := s_obs st in
     match s_op st with
     | WSetExt xs =>
-      c06_monitor client op (exts_compressed exts) size (rev cur) (log_slice base (o_calls o) log)
-      && seg_walk client op xs (o_size o) (o_calls o) [] r log
+      judge client op (exts_compressed exts) size (rev cur) (log_slice base (o_calls o) log)
+      && seg_walk_with client op xs (o_size o) (o_calls o) [] r log
     | WResetOp op' =>
-      c06_monitor client op (exts_compressed exts) size (rev cur) (log_slice base (o_calls o) log)
+      judge client op (exts_compressed exts) size (rev cur) (log_slice base (o_calls o) log)
       && (o_buffered o =? 0)
-      && seg_walk client op' exts (o_size o) (o_calls o) [] r log
-    | _ => seg_walk client op exts size base (rebase_step base st :: cur) r log
+      && seg_walk_with client op' exts (o_size o) (o_calls o) [] r log
+    | _ => seg_walk_with client op exts size base (rebase_step base st :: cur) r log
     end
   end.
+End Judge.
+
+(* every segment is judged by the C06 history monitor *)
+Definition seg_walk := seg_walk_with c06_monitor.
 
 (* the conjunction of the history monitor over the segments *)
 Definition c06_segments_verdict (client : bool) (op : N) (exts0 : list bool) (buflen0 : N)
@@ -86,3 +94,21 @@ Definition c06_segments_verdict (client : bool) (op : N) (exts0 : list bool) (bu
 Definition c06_segments_monitor (client : bool) (op : N) (exts0 : list bool) (buflen0 : N)
            (steps : list wstep) (log : list (list byte)) : bool :=
   c06_segments_apply exts0 steps && c06_segments_verdict client op exts0 buflen0 steps log.
+
+(* ------------------------------------------------------------------ C13, send side *)
+(* the frames sent during one segment: every message (and the open one) carries RSV1 on its
+   first frame exactly when [compressed] (data opcode), every other reserved bit is zero *)
+Definition c13_rsv_judge (client : bool) (op : N) (compressed : bool) (size : N)
+           (steps : list wstep) (log : list (list byte)) : bool :=
+  match frames_of (concat log) with
+  | None => false
+  | Some fs =>
+    let '(msgs, tailf) := split_messages fs [] in
+    forallb (msg_frames_ok client op compressed true) msgs && msg_frames_ok client op compressed true tailf
+  end.
+
+(* with SetExtensions between messages: the reserved bits of every message are those of the
+   extension list attached at that time *)
+Definition c13_segments_rsv (client : bool) (op : N) (exts0 : list bool) (buflen0 : N)
+           (steps : list wstep) (log : list (list byte)) : bool :=
+  seg_walk_with c13_rsv_judge client op exts0 buflen0 0 [] steps log.
